@@ -57,6 +57,8 @@ class DequeApi:
                 return R('int', [d.count(vm.to_py(a['v']))])
             if name == 'clear':
                 d.clear(); return R('none')
+            if name == 'setmaxlen' and hasattr(d, 'cache'):
+                d.maxlen = mx(a['m']); return R('none')
             if name == 'len':
                 return R('int', [len(d)])
             if name == 'iter':
